@@ -250,6 +250,72 @@ func streamBuiltins(o *Out, r *rand.Rand, n int, thorough bool) {
 
 	}
 	checkTables("")
+	// what a script gets through `import(pkg).Name` is the table entry of that name - for EVERY entry, also those whose
+	// name is a method name of the interpreter's own scope type (Copy, Set, String, Get, Delete ...)
+	{
+		pkgNames := make([]string, 0, len(env.Packages))
+		for p := range env.Packages {
+			pkgNames = append(pkgNames, p)
+		}
+		sort.Strings(pkgNames)
+		for _, p := range pkgNames {
+			names := make([]string, 0, len(env.Packages[p]))
+			for k := range env.Packages[p] {
+				names = append(names, k)
+			}
+			sort.Strings(names)
+			for _, k := range names {
+				want := env.Packages[p][k]
+				src := fmt.Sprintf("pk = import(%q)\npk.%s", p, k)
+				out := runScript(src, nil, coreEnv)
+				o.Sum.Evaluations++
+				o.Sum.Hist["package-entry-through-import"]++
+				if out.panicked || out.err != nil {
+					o.Fail(Failure{Oracle: "package-symbol-identity", Key: "package-member:" + p + "." + k, Input: src, Detail: fmt.Sprintf("error %v panic %v", out.err, out.panicVal)})
+					continue
+				}
+				got := reflect.ValueOf(out.val)
+				same := false
+				switch {
+				case !want.IsValid() || !got.IsValid():
+					same = want.IsValid() == got.IsValid()
+				case want.Kind() == reflect.Func && got.Kind() == reflect.Func:
+					same = want.Pointer() == got.Pointer() && want.Type() == got.Type()
+				case want.Kind() == reflect.Func || got.Kind() == reflect.Func:
+					same = false
+				default:
+					same = want.Type() == got.Type()
+				}
+				if !same {
+					o.Fail(Failure{Oracle: "package-symbol-identity", Key: "package-member:" + p + "." + k, Input: src,
+						Detail: fmt.Sprintf("the table binds %s to a %s, the script gets a %T", k, want.Type(), out.val)})
+				}
+			}
+		}
+	}
+	// keys(m) is every key of m exactly once - also keys of different types that print alike
+	for _, m := range []map[interface{}]interface{}{
+		{int64(1): "a", "1": "b"}, {int64(1): "a", float64(1): "b", "1": "c"}, {true: 1, "true": 2}, {int32(10): 1, int64(10): 2},
+		{"a": 1, "b": 2, "c": 3}, {int64(3): 1, int64(1): 2, int64(2): 3}, {nil: 1, "<nil>": 2}, {},
+	} {
+		out := runScript("keys(m)", map[string]interface{}{"m": m}, coreEnv)
+		o.Sum.Evaluations++
+		o.Sum.Hist["keys-forms"]++
+		ks, _ := out.val.([]interface{})
+		seen := map[interface{}]int{}
+		for _, k := range ks {
+			seen[k]++
+		}
+		bad := out.panicked || out.err != nil || len(ks) != len(m)
+		for k := range m {
+			if seen[k] != 1 {
+				bad = true
+			}
+		}
+		if bad {
+			o.Fail(Failure{Oracle: "go-conversion", Key: "keys-every-key-once", Input: fmt.Sprintf("keys(m) with m = %#v", m), Detail: fmt.Sprintf("got %#v (err %v)", out.val, out.err)})
+		}
+	}
 	// scripts may rebind the symbols of THEIR copy of a package table - through whatever reference they hold - never the tables
 	for _, src := range []string{
 		"s = import(\"strings\")\ns.ToUpper = s.ToLower",
